@@ -204,10 +204,28 @@ RuleTypenamePresent(S, doc, roots) ==
         (doc.defs[d].k = "frag" /\ IsAbstract(S, doc.defs[d].on)) =>
             HasTypename(doc, d, 0, doc.defs[d].on, {d})
 
+\* number of fields a selection set contributes to its parent object, through inline fragments and
+\* fragment spreads (each fragment counted once)
+RECURSIVE RootFieldCount(_, _, _, _)
+RootFieldCount(doc, d, p, seen) ==
+  LET kids == ChildSeq(doc, d, p)
+      RECURSIVE Sum(_, _)
+      Sum(j, sn) ==
+        IF j > Len(kids) THEN 0
+        ELSE LET n == doc.nodes[kids[j]] IN
+             CASE n.k \in {"field", "typename"} -> 1 + Sum(j + 1, sn)
+               [] n.k = "inline" -> RootFieldCount(doc, d, kids[j], sn) + Sum(j + 1, sn)
+               [] OTHER -> LET f == FragIndex(doc, n.name) IN
+                           IF f = 0 \/ f \in sn THEN Sum(j + 1, sn)
+                           ELSE RootFieldCount(doc, f, 0, sn \cup {f}) + Sum(j + 1, sn \cup {f})
+  IN  Sum(1, seen)
+
+\* exactly one root field, however the root selection is written (one item, and one field behind it)
 RuleSubscriptionSingleRoot(doc) ==
   \A d \in 1..Len(doc.defs) :
      (doc.defs[d].k = "op" /\ doc.defs[d].kind = "subscription") =>
-        Cardinality(ChildSet(doc, d, 0)) = 1
+        /\ Cardinality(ChildSet(doc, d, 0)) = 1
+        /\ RootFieldCount(doc, d, 0, {}) = 1
 
 RuleOperationsNamed(doc) ==
   \A d \in 1..Len(doc.defs) : doc.defs[d].k = "op" => (doc.defs[d].name # "" /\ doc.defs[d].kind # "bare")
